@@ -13,6 +13,7 @@ Decided (DESIGN.md C33):
  K3-const-readonly  LDAP-bind and client-certificate identities are built with the constant AccessScope::ReadOnly (certificate UAT: rw=false).
  K1-readwrite-scan  GLOBAL: every non-test expression yielding AccessScope::ReadWrite (all crates) is on the allow-list, one reason per site;
                     From<&UatPurpose> for AccessScope (no expiry test) has no caller; from_impersonate_entry_readwrite only its listed caller.
+ K4-uat-purpose (reissue-window)  the re-issued privilege window depends on now and privilege_expiry() only; other parameters only inside min().
 Not decided: what the access-control layer does with the scope (C24), session expiry arithmetic.
 """
 from .lib.hir import *
